@@ -26,7 +26,7 @@ pub struct Outcome {
 }
 
 /// Runs one controlled schedule: `acts` is a list of 'p' / 's'.
-pub fn run_schedule(kind: Kind, n: usize, acts: &[char]) -> Outcome {
+pub fn run_schedule(kind: Kind, n: usize, acts: &[char], thread_rot: usize) -> Outcome {
     let scratch = Scratch::new("c06");
     let data_dir = scratch.path().join("data");
     let ws = scratch.path().join("ws");
@@ -52,6 +52,7 @@ pub fn run_schedule(kind: Kind, n: usize, acts: &[char]) -> Outcome {
     });
     let delivered: Arc<Mutex<Vec<u64>>> = Arc::new(Mutex::new(Vec::new()));
     let expected = if kind == Kind::Thread { n + 1 } else { n };
+
     // producer
     let p_app = app.clone();
     let producer: Box<dyn FnOnce() + Send> = Box::new(move || {
@@ -72,7 +73,25 @@ pub fn run_schedule(kind: Kind, n: usize, acts: &[char]) -> Outcome {
                     }
                     Kind::Task => task.as_ref().unwrap().emit_delta(&format!("d{k}")).await,
                     Kind::Thread => {
-                        let _ = p_app.continuities().append_message(thread_id.as_ref().unwrap(), "a".into(), "o".into(), format!("m{k}"));
+                        // every public append kind of a run's life in turn: each has its own copy of
+                        // the log / cache / broadcast sequence
+                        let store = p_app.continuities();
+                        let t = thread_id.as_ref().unwrap();
+                        match (k + thread_rot) % 4 {
+                            0 => {
+                                let _ = store.append_message(t, "a".into(), "o".into(), format!("m{k}"));
+                            }
+                            1 => {
+                                let _ = store.append_run_spawned(t, "m", &format!("run-{k}"), "a".into(), "o".into());
+                            }
+                            2 => {
+                                let link = ripd::ContinuityRunLink { continuity_id: t.clone(), message_id: "m".into(), actor_id: "a".into(), origin: "o".into() };
+                                let _ = store.append_tool_side_effects(&link, &format!("run-{k}"), ripd::ToolSideEffects { tool_id: "t".into(), tool_name: "write".into(), affected_paths: Some(vec!["a.txt".into()]), checkpoint_id: None });
+                            }
+                            _ => {
+                                let _ = store.append_run_ended(t, "m", &format!("run-{k}"), "completed".into(), "a".into(), "o".into());
+                            }
+                        }
                     }
                 }
             }
@@ -244,6 +263,153 @@ fn two_emitter_case(rep: &mut Report, rng: &mut Rng) {
 
 /// A subscriber that attached before the stream started and does not read while more frames than
 /// the broadcast channel holds are emitted.
+/// A reader that finds the thread's sidecar unreadable answers from the log and then rewrites the
+/// sidecar from the frames it read. Scheduled here: the reader is parked between its log read and
+/// the rewrite while a producer appends one more frame (log, caches, broadcast); then the reader
+/// finishes. A subscriber attaching AFTERWARDS must still get every frame from 0 on, and so must
+/// the frames appended while it listens.
+fn reader_rebuild_race_case(rep: &mut Report, rng: &mut Rng) {
+    let scratch = Scratch::new("c06rr");
+    let data_dir = scratch.path().join("data");
+    let ws = scratch.path().join("ws");
+    std::fs::create_dir_all(&ws).unwrap();
+    let app = Arc::new(ripd::verif_export::VerifApp::new(data_dir.clone(), ws.clone()));
+    let store = app.continuities();
+    let thread = store.ensure_default().unwrap();
+    let before = rng.range(1, 6) as usize;
+    for k in 0..before {
+        let _ = store.append_message(&thread, "a".into(), "o".into(), format!("m{k}"));
+    }
+    // how the sidecar became unreadable: lost, or left with a torn last line
+    let sidecar = data_dir.join("continuity_streams").join(format!("{thread}.jsonl"));
+    let damage = if rng.chance(1, 2) {
+        let _ = std::fs::remove_file(&sidecar);
+        "sidecar lost"
+    } else {
+        let mut b = std::fs::read(&sidecar).unwrap_or_default();
+        b.extend_from_slice(b"{\"id\":\"torn");
+        let _ = std::fs::write(&sidecar, b);
+        "sidecar with a torn last line"
+    };
+    let during = rng.range(1, 3) as usize;
+    let (r_store, r_thread) = (store.clone(), thread.clone());
+    let reader: Box<dyn FnOnce() + Send> = Box::new(move || {
+        let _ = r_store.replay_events(&r_thread);
+    });
+    let (p_store, p_thread) = (store.clone(), thread.clone());
+    let producer: Box<dyn FnOnce() + Send> = Box::new(move || {
+        for k in 0..during {
+            let _ = p_store.append_message(&p_thread, "a".into(), "o".into(), format!("during {k}"));
+        }
+    });
+    let mut s = Scheduler::new(vec![reader, producer]);
+    // the reader up to the rewrite (or to its end when it never falls back to the log)
+    let mut parked = false;
+    for _ in 0..40 {
+        let at = s.where_is(0);
+        if at == "replay.rebuild" {
+            parked = true;
+            break;
+        }
+        if at == "finished" {
+            break;
+        }
+        if s.step_or_block(0, 60) == "blocked" {
+            break;
+        }
+    }
+    // the producer to its end, then the reader to its end
+    for _ in 0..(during * 12 + 12) {
+        if s.where_is(1) == "finished" {
+            break;
+        }
+        if s.step_or_block(1, 60) == "blocked" {
+            break;
+        }
+    }
+    let producer_done = s.where_is(1) == "finished";
+    for _ in 0..12 {
+        if s.where_is(0) == "finished" {
+            break;
+        }
+        s.step_or_block(0, 60);
+    }
+    for _ in 0..(during * 12 + 12) {
+        if s.where_is(1) == "finished" {
+            break;
+        }
+        s.step_or_block(1, 60);
+    }
+    s.finish();
+    // a late subscriber, and one more frame while it listens
+    let after = 1usize;
+    let last = (before + during + after) as u64; // seq 0 is the creation frame
+    let rt = tokio::runtime::Builder::new_multi_thread().worker_threads(2).enable_all().build().unwrap();
+    let delivered: Vec<u64> = rt.block_on(async {
+        use axum::body::Body;
+        use axum::http::Request;
+        use http_body_util::BodyExt;
+        use tower::ServiceExt;
+        let req = Request::builder().method("GET").uri(format!("/threads/{thread}/events")).body(Body::empty()).unwrap();
+        let resp = app.router.clone().oneshot(req).await.unwrap();
+        let (l_store, l_thread) = (store.clone(), thread.clone());
+        tokio::task::spawn_blocking(move || {
+            for k in 0..after {
+                let _ = l_store.append_message(&l_thread, "a".into(), "o".into(), format!("after {k}"));
+            }
+        })
+        .await
+        .unwrap();
+        let mut body = resp.into_body();
+        let mut buf = String::new();
+        let mut out: Vec<u64> = Vec::new();
+        loop {
+            match tokio::time::timeout(std::time::Duration::from_millis(200), body.frame()).await {
+                Ok(Some(Ok(f))) => {
+                    if let Some(d) = f.data_ref() {
+                        buf.push_str(&String::from_utf8_lossy(d));
+                    }
+                }
+                _ => break,
+            }
+            while let Some(pos) = buf.find("\n\n") {
+                let block: String = buf.drain(..pos + 2).collect();
+                for line in block.lines() {
+                    if let Some(rest) = line.strip_prefix("data:") {
+                        if let Ok(v) = serde_json::from_str::<Value>(rest.trim_start()) {
+                            if let Some(seq) = v["seq"].as_u64() {
+                                out.push(seq);
+                            }
+                        }
+                    }
+                }
+            }
+            if out.last() == Some(&last) {
+                break;
+            }
+        }
+        out
+    });
+    drop(rt);
+    rep.evaluations += 1;
+    rep.traces_validated += 1;
+    rep.count("reader_rebuild_race_cases");
+    if parked {
+        rep.count("reader_rebuild_race_reader_parked_before_rewrite");
+    }
+    if parked && producer_done {
+        rep.nontrivial_case(&format!("rr {before} {during} {damage}"));
+    }
+    let want: Vec<u64> = (0..=last).collect();
+    if delivered != want {
+        rep.oracle_failure(
+            "C06|late-subscriber-after-reader-rebuild",
+            &format!("a subscriber attached after a reader rebuilt the sidecar received {delivered:?}, expected every frame 0..={last}"),
+            json!({"kind": "Thread", "how_the_sidecar_became_unreadable": damage, "frames_before": before + 1, "frames_appended_between_the_readers_log_read_and_its_rewrite": during, "frames_appended_while_subscribed": after, "reader_parked_before_rewrite": parked, "producer_finished_while_reader_parked": producer_done}),
+        );
+    }
+}
+
 fn lag_case(rep: &mut Report, extra: usize) {
     let cap = std::fs::read_to_string("/verif/.build/gen.json")
         .ok()
@@ -321,11 +487,12 @@ pub fn run(opts: &Opts) -> Report {
     );
     let mut model = Model::spawn();
     let mut rng = Rng::new(opts.seed);
-    let mut cases: Vec<(Kind, usize, Vec<char>)> = Vec::new();
+    // (kind, frames, schedule, which append kind the thread producer starts with)
+    let mut cases: Vec<(Kind, usize, Vec<char>, usize)> = Vec::new();
     // corpus: the lost-frame schedule of Rip.Cex.C06.lost_frame
     for k in [Kind::Session, Kind::Task, Kind::Thread] {
-        cases.push((k, 1, "pss".chars().collect()));
-        cases.push((k, 2, "pppspsp".chars().collect()));
+        cases.push((k, 1, "pss".chars().collect(), 0));
+        cases.push((k, 2, "pppspsp".chars().collect(), 0));
     }
     // exhaustive attach positions for n <= 2: subscribe after i producer steps, snapshot after j >= i
     for k in [Kind::Session, Kind::Task, Kind::Thread] {
@@ -341,7 +508,12 @@ pub fn run(opts: &Opts) -> Report {
                     acts.push('s');
                     acts.extend(vec!['p'; j - i]);
                     acts.push('s');
-                    cases.push((k, n, acts));
+                    // thread streams: every append kind at every attach position (one frame), and a
+                    // rotating start for two frames
+                    let rots: Vec<usize> = if k != Kind::Thread { vec![0] } else if n == 1 { vec![0, 1, 2, 3] } else { vec![(i + j) % 4] };
+                    for rot in rots {
+                        cases.push((k, n, acts.clone(), rot));
+                    }
                 }
             }
         }
@@ -352,20 +524,24 @@ pub fn run(opts: &Opts) -> Report {
         let n = rng.range(2, 4) as usize;
         let len = rng.range(2, 20);
         let acts: Vec<char> = (0..len).map(|_| if rng.chance(1, 3) { 's' } else { 'p' }).collect();
-        cases.push((k, n, acts));
+        cases.push((k, n, acts, rng.below(4) as usize));
     }
     let n_two = if opts.thorough { 300 } else { 30 } * opts.scale;
     for _ in 0..n_two {
         two_emitter_case(&mut rep, &mut rng);
     }
+    let n_rr = if opts.thorough { 200 } else { 20 } * opts.scale;
+    for _ in 0..n_rr {
+        reader_rebuild_race_case(&mut rep, &mut rng);
+    }
     lag_case(&mut rep, 50);
-    for (kind, n, acts) in cases {
+    for (kind, n, acts, rot) in cases {
         rep.evaluations += 1;
-        let out = run_schedule(kind, n, &acts);
+        let out = run_schedule(kind, n, &acts, rot);
         rep.traces_validated += 1;
         let (gid, via_log) = gen_id(kind);
         let sched_text: String = acts.iter().collect();
-        let case = json!({"kind": format!("{kind:?}"), "frames": n, "schedule": sched_text, "effective_schedule": out.model_acts});
+        let case = json!({"kind": format!("{kind:?}"), "frames": n, "schedule": sched_text, "first_append_kind": if kind == Kind::Thread { ["message", "run_spawned", "tool_side_effects", "run_ended"][rot % 4] } else { "-" }, "effective_schedule": out.model_acts});
         let m = model.ask(&format!("c06 {} {} {} {} {}", gid, via_log as u8, n, out.model_acts.len(), out.model_acts.join(" ")));
         let impl_line = format!("out=[{}]", out.delivered.iter().map(|x| x.to_string()).collect::<Vec<_>>().join(","));
         if !m.contains(&format!(" {impl_line} ")) || !m.contains("trace_matches_generated_order=1") || !m.starts_with("complete=1") {
